@@ -16,6 +16,11 @@ Enum3 == TEnum(3, 0, FALSE)
 Ch1 == TChoice(<<I07, Inner, TBool, TNull>>, 4, FALSE)
 Ch2 == TChoice(<<Ch1, TStr("utf8", NoSz)>>, 2, FALSE)
 ChList == TChoice(<<I07, TSeqOf(I07, NoSz)>>, 2, FALSE)
+\* a message that can be empty on the wire (nothing but absent OPTIONAL fields): as list element and as oneof member its
+\* PRESENCE is information even when its content is empty
+AllOpt == TSeq(<<O(I07), O(TBool)>>, 2, FALSE)
+EmptyM == << <<>>, <<>> >>
+FullM == << <<3>>, <<TRUE>> >>
 
 \* (-1..4294967295): the upper bound exceeds TLC's integers; it is carried as text for the printer, the specification only
 \* needs its sign class and values up to 2^31-1
@@ -31,9 +36,18 @@ PZoo == <<
   TSeq(<<M(I07), O(TBool), M(TStr("utf8", NoSz)), O(I07)>>, 2, TRUE),
   TSeq(<<M(TNull), M(I07), O(TNull), M(TBool)>>, 4, FALSE),
   TSeq(<<M(TSeqOf(Ch1, NoSz)), M(TSeqOf(Enum3, NoSz)), M(TSeqOf(TOct(NoSz), NoSz)), M(I07)>>, 4, FALSE),
+  TSeq(<<M(TSeqOf(AllOpt, NoSz)), M(TChoice(<<AllOpt, TBool>>, 2, FALSE)), O(AllOpt), M(I07)>>, 4, FALSE),
   \* input classes of open findings
   TSeq(<<M(TSeqOf(TSeqOf(I07, NoSz), NoSz)), M(I07)>>, 2, FALSE),
   TSeq(<<M(ChList), M(I07)>>, 2, FALSE) >>
+
+\* hand-picked additional values: empty messages where their presence counts
+EmptyIdx == Len(PZoo) - 2
+PExtra(i) ==
+  IF i # EmptyIdx THEN <<>>
+  ELSE << << <<<<FullM, EmptyM, FullM>>>>, <<[i |-> 0, v |-> EmptyM]>>, <<>>, <<5>> >>,
+          << <<<<EmptyM, EmptyM>>>>, <<[i |-> 0, v |-> FullM]>>, <<EmptyM>>, <<5>> >>,
+          << <<<<EmptyM>>>>, <<[i |-> 1, v |-> TRUE]>>, <<FullM>>, <<0>> >> >>
 
 PDevOf(i, Dev) ==
   IF i = Len(PZoo) - 1 /\ "ProtoNestedList" \in Dev THEN "ProtoNestedList"
